@@ -205,6 +205,7 @@ theorem addTarget_erase {m : Option Nat} {c : ChanState} {qs : List Nat}
       generalize (CRes.lift c1 _).c = c2 at hx
       rw [lift_of_ok hx]
       -- replay the inner computation on the erased channel
+      unfold addTargetTail at hx ⊢
       cases hl : c1.last with
       | error e => simp [hl] at hx
       | ok last =>
